@@ -107,6 +107,28 @@ def r09_2(ctx):
            'w.index = %s' % P)
 
 
+def r09_7(ctx):
+    ctx.rule('R09.7', 'workers are started from one place: the refill is called only by the supervision tick, the fork '
+                      'only by the refill and the constructor -- "how many are missing / which slot is free" is '
+                      'check-then-act without a lock, so a second caller (another thread) starts a worker too many '
+                      'on a slot already taken', floor=3)
+    m = ctx.model
+    allowed = {'_repopulate_pool': {'_maintain_pool'}, '_create_worker_process': {'_repopulate_pool', '__init__'}}
+    seen = {k: set() for k in allowed}
+    for qn, fi in sorted(m.funcs.items()):
+        if fi.module.name != 'pool':
+            continue
+        for (n, c) in q.calls(fi, lambda t: t.split('.')[-1] in allowed and t.startswith('self.')):
+            callee = fi.callee(c).split('.')[-1]
+            seen[callee].add(fi.name)
+            ok = fi.cls is not None and fi.cls.name == 'Pool' and fi.name in allowed[callee]
+            ctx.ob('R09.7', '%s:called-from-%s' % (callee, fi.name), ok, fi, c,
+                   'the one place that starts workers' if ok else
+                   'Pool.%s also starts workers: it runs in the caller\'s thread, concurrently with the supervisor\'s '
+                   'refill -- both see the same missing count and the same free slot' % fi.name)
+    q.need(all(seen[k] for k in allowed), 'callers of the refill / fork not found')
+
+
 def r09_3(ctx):
     ctx.rule('R09.3', 'a supervision tick reaps first, then refills with what the reaper returned', floor=2)
     m = ctx.model
@@ -212,6 +234,7 @@ def r09_5(ctx):
 
 def run(ctx):
     r09_1(ctx, state_recheck=False)
+    r09_7(ctx)
     # a replacement worker's consumed-result counter is registered in the pool's table after the result handler was
     # built: the handler must look at that table itself, or recycled replacements wait out their 30 s guard
     from .c05 import helpers_hold_live_objects
@@ -227,6 +250,8 @@ def run(ctx):
 
 _P = 'billiard/pool.py'
 MUTANTS = [
+    ('grow-starts-workers-itself', _P, "                self._putlock.grow()\n        self.on_grow(n)\n",
+     "                self._putlock.grow()\n        self._repopulate_pool([])\n        self.on_grow(n)\n", 'R09.7'),
     ('one-too-many', _P, "        for i in range(self._processes - len(self._pool)):\n            if self._state != RUN:",
      "        for i in range(self._processes - len(self._pool) + 1):\n            if self._state != RUN:", 'R09.1'),
     ('create-only-abnormal', _P, "            except IndexError:\n                self.restart_state.step()\n            self._create_worker_process(self._avail_index())",
